@@ -141,6 +141,12 @@ def gen_cases(ctx):
 def gen_cases_raw(ctx):
     r = ctx.rng
     th = ctx.thorough
+    # corpus (runs first): DataFrame round trip of trajectories whose stamps are integer-valued floats 0, 1, ..., n-1 (they look like
+    # the integer index of a path: seeded change C06-3), single pose at 0.0 / -0.0, and the same shifted to 5.0 as a control
+    for st in ([0.0], [-0.0], [0.0, 1.0, 2.0], [float(k) for k in range(10)], [5.0], [5.0, 6.0, 7.0], [float(k) for k in range(5, 15)], [1.0, 2.0]):
+        n = len(st)
+        yield {"kind": "df", "type": "tum", "stamps": st, "xyz": [[hard_double(r) for _ in range(3)] for _ in range(n)],
+               "quat": [[r.uniform(-1, 1) for _ in range(4)] for _ in range(n)], "corpus": "arange-like-stamps"}
     # corpus (runs first): F14, the stamp that came back 1.86 ns off before the repair; the carry of the repaired code
     cp = core.VERIF / "harness" / "corpus" / "C06" / "bag-stamp-2p23.json"
     if cp.exists():
@@ -270,6 +276,12 @@ def gen_cases_raw(ctx):
         n = r.choice([1, 2, 5, 40])
         c = {"kind": "df", "type": r.choice(["tum", "kitti"])}
         c.update(gen_traj(r, n))
+        if r.random() < 0.25:       # integer-valued float stamps, also starting at 0 / -0.0
+            m = len(c["stamps"])
+            start = r.choice([0, 0, 1, 5, r.randint(0, 10 ** 6)])
+            c["stamps"] = [float(start + i) for i in range(m)]
+            if start == 0 and r.random() < 0.3:
+                c["stamps"][0] = -0.0
         yield c
     for _ in range(120 if not th else 500):
         n = r.choice([1, 2, 5, 30])
